@@ -27,7 +27,7 @@
    Known finding (kept in known_findings.json): 'link/../x' with link a symlink to a directory elsewhere -
    existence and volume use the physical parent, location and move use lexical normpath. *)
 From TV Require Import Prelude.Str Prelude.PosixPath Prog.Prog World.World Cmd.Put Proofs.ProgProofs Proofs.PutSafe Proofs.PutProofs Proofs.PutMore
-  Proofs.WorldProofs Proofs.WorldPut Proofs.WorldPut3 Proofs.WorldExamples.
+  Proofs.WorldProofs Proofs.WorldPut Proofs.WorldPut3 Proofs.WorldExamples Proofs.FailedPut.
 Open Scope N_scope.
 
 Theorem untouched_arguments : forall o path,
@@ -86,6 +86,16 @@ Theorem put_keeps_what_it_trashed : forall o,
          wfs s3 q = wfs s2 q) (put_main o).
 Proof. exact put_keeps_what_it_trashed_lemma. Qed.
 Print Assumptions put_keeps_what_it_trashed.
+
+(* one argument, at most one move, and nothing but log lines after it: the two-state monitor FailedPut.mstep (nothing moved / moved)
+   rejects a second move and every non-log operation once a move has returned normally - and rejects no run of the procedure *)
+Theorem at_most_one_move_per_argument : forall path o,
+  all_runs (fun t _ => accepts mstep false t <> None) (trash_single path o).
+Proof. exact one_move_per_argument_lemma. Qed.
+Print Assumptions at_most_one_move_per_argument.
+Example a_second_move_is_rejected :
+  accepts mstep false [(Move ($"/a") ($"/t/files/a"), RUnit); (Log INFO true ($"'a' trashed"), RUnit); (Move ($"/a") ($"/t/files/a_1"), RUnit)] = None.
+Proof. reflexivity. Qed.
 
 (* the premises are met by a real case (WorldExamples: a tree with a trash directory, a complete put consistent with it):
    the argument's parent directory is protected and is what it was; the file arrives under files/ with its content *)
